@@ -1,6 +1,252 @@
-(* Properties_C06.v — placeholder while the pipeline is brought up; replaced by the real statements. *)
-From Coq Require Import ZArith List Floats.
-From DS Require Import BoundsDefs.
-Theorem C06_tables_len : length BoundTablesGen.lb_equiv_table = 363%nat.
+(* Properties_C06.v — estimates and confidence bounds of the distinct-count sketches are consistent.
+   Only statements, closed by [exact]; proofs live in BoundsProofs.v, BoundsFloatDiv.v, BoundsExact.v, BoundsTables.v.
+   The definitions (sk_lb, bb_lb, hll_lb, cpc_lb, ... instance [fops] = IEEE-754 binary64) are the ones extracted
+   and replayed bit for bit against the C++ code by checks/C06.py; [qops] is the exact rational instance.
+   (This file does not import Floats, so that Print Assumptions shows the primitive-float names qualified.) *)
+From Coq Require Import ZArith List Bool QArith.
+From DS Require Import RunnerLib BoundsDefs BoundsProofs BoundsFloatDiv BoundsExact BoundsTables.
+From DS.gen Require Import BoundTablesGen.
+Import ListNotations.
+Local Open Scope Z_scope.
+
+(* ---- Theta / Tuple (binomial_bounds): for ALL binary64 values of theta and of the inner approximations
+        (NaN and infinities included), any n, any number of std devs: never estimate < lb, never ub < estimate ---- *)
+Theorem C06_binomial_bounds_order : forall n theta inner_lb inner_ub,
+  PrimFloat.ltb (bb_est fops n theta) (bb_lb fops n theta inner_lb) = false /\
+  PrimFloat.ltb (bb_ub fops n theta inner_ub) (bb_est fops n theta) = false.
+Proof. intros; split; [apply f_bb_lb_le_est | apply f_bb_est_le_ub]. Qed.
+
+(* theta_sketch / tuple_sketch get_lower_bound <= get_estimate <= get_upper_bound, estimation mode or not *)
+Theorem C06_sketch_bounds_order : forall estmode n theta inner_lb inner_ub,
+  (estmode = false -> theta = PrimFloat.one \/ (n = 0 /\ PrimFloat.ltb PrimFloat.zero theta = true)) ->
+  PrimFloat.ltb (sk_est fops n theta) (sk_lb fops estmode n theta inner_lb) = false /\
+  PrimFloat.ltb (sk_ub fops estmode n theta inner_ub) (sk_est fops n theta) = false.
+Proof. exact sketch_order. Qed.
+
+(* the same as lb <= est <= ub with IEEE <= whenever none of the three values is NaN *)
+Theorem C06_sketch_bounds_order_leb : forall estmode n theta inner_lb inner_ub,
+  (estmode = false -> theta = PrimFloat.one \/ (n = 0 /\ PrimFloat.ltb PrimFloat.zero theta = true)) ->
+  fisnan (sk_est fops n theta) = false -> fisnan (sk_lb fops estmode n theta inner_lb) = false ->
+  fisnan (sk_ub fops estmode n theta inner_ub) = false ->
+  PrimFloat.leb (sk_lb fops estmode n theta inner_lb) (sk_est fops n theta) = true /\
+  PrimFloat.leb (sk_est fops n theta) (sk_ub fops estmode n theta inner_ub) = true.
+Proof. exact sketch_order_leb. Qed.
+
+(* exact outside estimation mode: theta64 = MAX_THETA => get_theta() = 1.0 and lb = estimate = ub = retained, bit for bit *)
+Theorem C06_exact_outside_estimation_mode : forall n m inner_lb inner_ub,
+  let theta := theta_frac max_theta in
+  theta = PrimFloat.one /\
+  sk_est fops n theta = fofZ n /\ sk_lb fops false m theta inner_lb = fofZ m /\ sk_ub fops false m theta inner_ub = fofZ m.
+Proof. intros. split; [exact theta_frac_max | apply sketch_exact_theta_max]. Qed.
+
+Theorem C06_not_estimation_mode_cases : forall theta64 empty, theta64 <= max_theta ->
+  estimation_mode theta64 empty = false -> theta64 = max_theta \/ empty = true.
+Proof. exact estimation_mode_false. Qed.
+
+(* an empty sketch (no retained entries) with any theta > 0 *)
+Theorem C06_exact_when_empty : forall theta inner_lb inner_ub, PrimFloat.ltb PrimFloat.zero theta = true ->
+  sk_est fops 0 theta = fofZ 0 /\ sk_lb fops false 0 theta inner_lb = fofZ 0 /\ sk_ub fops false 0 theta inner_ub = fofZ 0.
+Proof. exact sketch_exact_empty. Qed.
+
+(* x / 1.0 = x for every binary64 x *)
+Theorem C06_div_by_one_exact : forall x, PrimFloat.div x PrimFloat.one = x.
+Proof. exact fdiv_one. Qed.
+
+(* binomial_bounds special cases, bit-exact: theta = 1 and zero samples *)
+Theorem C06_binomial_theta_one : forall n sd,
+  approx_lb n PrimFloat.one sd = Exact 1 (fofZ n) /\ approx_ub n PrimFloat.one sd = Exact 1 (fofZ n) /\
+  bb_est fops n PrimFloat.one = fofZ n /\ bb_lb fops n PrimFloat.one (fofZ n) = fofZ n /\ bb_ub fops n PrimFloat.one (fofZ n) = fofZ n.
+Proof. intros. destruct (approx_theta_one n sd), (bb_theta_one n) as (? & ? & ?). auto. Qed.
+
+Theorem C06_binomial_zero_samples : forall theta sd, PrimFloat.ltb PrimFloat.zero theta = true ->
+  (approx_lb 0 theta sd = Exact 1 PrimFloat.zero \/ approx_lb 0 theta sd = Exact 2 PrimFloat.zero) /\
+  bb_est fops 0 theta = PrimFloat.zero /\ bb_lb fops 0 theta PrimFloat.zero = PrimFloat.zero.
+Proof. intros. split; [apply approx_lb_zero_samples | now apply bb_zero_samples]. Qed.
+
+(* branch structure of the inner approximations: table branch (6) and exact-tail branch (7) only in the table's range *)
+Theorem C06_binomial_branch_structure : forall n theta sd, 0 <= n ->
+  match approx_lb n theta sd with
+  | Exact 6 _ => 2 <= n <= 120 | Libm 7 => 2 <= n <= 120 | Libm 3 => n = 1 | Exact 2 _ => n = 0 | Exact 4 _ => 120 < n | _ => True
+  end /\
+  match approx_ub n theta sd with
+  | Exact 6 _ => 1 <= n <= 120 | Libm 7 => 1 <= n <= 120 | Libm 2 => n = 0 | Exact 4 _ => 120 < n | _ => True
+  end.
+Proof. intros. split; [now apply approx_lb_branches | now apply approx_ub_branches]. Qed.
+
+(* ---- clamps of HLL (coupon list / HLL array), CPC and ICON, for ALL binary64 values: the result is never below the
+        coupon count / number of non-zero registers ---- *)
+Theorem C06_clamps_never_below_count : forall (x r eps : PrimFloat.float) (c : Z),
+  PrimFloat.ltb (coupon_est fops x c) (fofZ c) = false /\
+  PrimFloat.ltb (coupon_lb fops x r c) (fofZ c) = false /\
+  PrimFloat.ltb (coupon_ub fops x r c) (fofZ c) = false /\
+  PrimFloat.ltb (hll_lb fops x r c) (fofZ c) = false /\
+  (c <> 0 -> PrimFloat.ltb (cpc_lb fops c x eps) (fofZ c) = false) /\
+  PrimFloat.ltb (icon_clamp fops x c) (fofZ c) = false.
+Proof.
+  intros. repeat split; try apply f_cfmax_ge_r; [apply f_cpc_lb_ge_coupons | apply f_icon_clamp_ge_coupons].
+Qed.
+
+(* ---- exact rational arithmetic: the relative-error divisions keep the order and widen with the std devs ---- *)
+Local Open Scope Q_scope.
+Theorem C06_hll_array_order : forall est re_lo re_hi nnz,
+  0 < re_lo -> -1 < re_hi -> re_hi < 0 -> inject_Z nnz <= est -> 0 <= est ->
+  inject_Z nnz <= hll_lb qops est re_lo nnz /\ hll_lb qops est re_lo nnz <= est /\ est <= hll_ub qops est re_hi.
+Proof. exact q_hll_order. Qed.
+Theorem C06_hll_array_widen : forall est nnz lo1 lo2 hi1 hi2, 0 <= est -> 0 < lo1 -> lo1 <= lo2 -> -1 < hi2 -> hi2 <= hi1 ->
+  hll_lb qops est lo2 nnz <= hll_lb qops est lo1 nnz /\ hll_ub qops est hi1 <= hll_ub qops est hi2.
+Proof. intros. split; [now apply q_hll_widen | now apply q_hll_widen_ub]. Qed.
+Theorem C06_coupon_list_order : forall cubic r count, (0 <= count)%Z -> 0 <= r -> r < 1 ->
+  inject_Z count <= coupon_lb qops cubic r count /\
+  coupon_lb qops cubic r count <= coupon_est qops cubic count /\
+  coupon_est qops cubic count <= coupon_ub qops cubic r count.
+Proof. exact q_coupon_order. Qed.
+Theorem C06_coupon_list_widen : forall cubic r1 r2 count, 0 <= cubic -> 0 <= r1 -> r1 <= r2 -> r2 < 1 ->
+  coupon_lb qops cubic r2 count <= coupon_lb qops cubic r1 count /\
+  coupon_ub qops cubic r1 count <= coupon_ub qops cubic r2 count.
+Proof. exact q_coupon_widen. Qed.
+Theorem C06_cpc_order : forall c est eps_lo eps_hi, (0 < c)%Z -> inject_Z c <= est -> 0 < eps_lo -> 0 <= eps_hi -> eps_hi < 1 ->
+  inject_Z c <= cpc_lb qops c est eps_lo /\ cpc_lb qops c est eps_lo <= est /\ est <= cpc_ub qops c est eps_hi.
+Proof. exact q_cpc_order. Qed.
+Theorem C06_cpc_empty : forall est eps, cpc_lb qops 0 est eps = 0 /\ cpc_ub qops 0 est eps = 0.
+Proof. exact q_cpc_zero. Qed.
+Theorem C06_cpc_widen : forall c est e1 e2, 0 <= est -> 0 < e1 -> e1 <= e2 -> e2 < 1 ->
+  cpc_lb qops c est e2 <= cpc_lb qops c est e1 /\ cpc_ub qops c est e1 <= cpc_ub qops c est e2.
+Proof. exact q_cpc_widen. Qed.
+(* widening of the inner approximations passes through the min/max clamps of binomial_bounds *)
+Theorem C06_binomial_widen_through_clamps : forall n theta i1 i2 j1 j2, i2 <= i1 -> j1 <= j2 ->
+  bb_lb qops n theta i2 <= bb_lb qops n theta i1 /\ bb_ub qops n theta j1 <= bb_ub qops n theta j2.
+Proof. exact q_bb_widen. Qed.
+Theorem C06_binomial_lb_ge_retained : forall n theta inner, 0 < theta -> theta <= 1 -> (0 <= n)%Z ->
+  inject_Z n <= bb_lb qops n theta inner.
+Proof. exact q_bb_lb_ge_n. Qed.
+
+(* ---- HIP accumulators (exact arithmetic): every increment k/kxq is >= 1, so HIP >= number of non-zero registers
+        (HllArray, for every update sequence of the abstract register array) / number of collected coupons (CPC) ---- *)
+Theorem C06_hip_dominates_nonzero_registers : forall k ups,
+  inject_Z (count_nonzero (h_regs (hip_run k ups))) <= h_hip (hip_run k ups).
+Proof. exact hip_ge_nonzeros. Qed.
+Theorem C06_hip_dominates_increment_count : forall k xs acc0, Forall (fun x => 0 < x /\ x <= k) xs ->
+  acc0 + inject_Z (Z.of_nat (length xs)) <= fold_left (hip_step qops k) xs acc0.
+Proof. exact hip_accum_ge_count. Qed.
+Local Close Scope Q_scope.
+
+(* ---- side conditions of the TRANSLATED tables (re-generated from the headers on every run) ---- *)
+Theorem C06_table_lengths :
+  (length delta_of_num_std_devs, length lb_equiv_table, length ub_equiv_table) = (4, 363, 363)%nat /\
+  (length hll_HIP_LB, length hll_HIP_UB, length hll_NON_HIP_LB, length hll_NON_HIP_UB) = (27, 27, 27, 27)%nat /\
+  (length cpc_ICON_LOW_SIDE_DATA, length cpc_ICON_HIGH_SIDE_DATA, length cpc_HIP_LOW_SIDE_DATA, length cpc_HIP_HIGH_SIDE_DATA)
+     = (33, 33, 33, 33)%nat /\
+  Z.of_nat (length icon_coefficients) = (icon_POLYNOMIAL_DEGREE + 1) * (icon_MAX_LOG_K - icon_MIN_LOG_K + 1) /\
+  (Z.of_nat (length coupon_xArr), Z.of_nat (length coupon_yArr)) = (coupon_numEntries, coupon_numEntries).
+Proof. exact table_lengths. Qed.
+Theorem C06_table_indices_in_range :
+  (forall n sd, 0 <= n <= 120 -> 1 <= sd <= 3 ->
+     0 <= equiv_index n sd < Z.of_nat (length lb_equiv_table) /\ 0 <= equiv_index n sd < Z.of_nat (length ub_equiv_table)) /\
+  (forall lgk sd, 4 <= lgk <= 12 -> 1 <= sd <= 3 -> 0 <= (lgk - 4) * 3 + (sd - 1) < 27) /\
+  (forall lgk kappa, 4 <= lgk <= 14 -> 1 <= kappa <= 3 -> 0 <= 3 * (lgk - 4) + (kappa - 1) < 33) /\
+  (forall lgk, icon_MIN_LOG_K <= lgk <= icon_MAX_LOG_K ->
+     0 <= icon_ncoef * (lgk - icon_MIN_LOG_K) /\ icon_ncoef * (lgk - icon_MIN_LOG_K) + icon_ncoef <= Z.of_nat (length icon_coefficients)).
+Proof.
+  split; [exact equiv_index_in_range | split; [exact hll_index_in_range | split; [exact cpc_index_in_range | exact icon_index_in_range]]].
+Qed.
+Theorem C06_binomial_tables_ok :
+  forallb fpos lb_equiv_table = true /\ forallb fpos ub_equiv_table = true /\
+  forallb row_incr (rows3 lb_equiv_table) = true /\ forallb row_incr (rows3 ub_equiv_table) = true /\
+  forallb fpos delta_of_num_std_devs = true /\
+  sorted_strict (rev delta_of_num_std_devs) = true /\ PrimFloat.leb (fnth delta_of_num_std_devs 0) c_half = true.
+Proof. exact binomial_tables_ok. Qed.
+Theorem C06_hll_tables_ok :
+  forallb fpos hll_HIP_LB = true /\ forallb fpos hll_NON_HIP_LB = true /\
+  forallb fneg_unit hll_HIP_UB = true /\ forallb fneg_unit hll_NON_HIP_UB = true /\
+  forallb row_incr (rows3 hll_HIP_LB) = true /\ forallb row_incr (rows3 hll_NON_HIP_LB) = true /\
+  forallb row_decr (rows3 hll_HIP_UB) = true /\ forallb row_decr (rows3 hll_NON_HIP_UB) = true.
+Proof. exact hll_tables_ok. Qed.
+(* HllUtil::getRelErr as modelled bit-exactly, every lg_k 4..21: lower side > 0 and increasing in the std devs,
+   upper side in (-1,0) and decreasing *)
+Theorem C06_hll_rel_err_ok : forall ooo lgk, hll_MIN_LOG_K <= lgk <= hll_MAX_LOG_K -> hll_rel_err_row_ok ooo lgk = true.
+Proof. exact hll_rel_err_ok. Qed.
+Theorem C06_coupon_tables_ok :
+  (fpos coupon_rse = true /\ flt (PrimFloat.mul (fofZ 3) coupon_rse) PrimFloat.one = true) /\
+  sorted_strict coupon_xArr = true /\ sorted_strict coupon_yArr = true /\
+  forallb (fun p => PrimFloat.leb (fst p) (snd p)) (combine coupon_xArr coupon_yArr) = true.
+Proof. split; [exact coupon_rse_ok | exact coupon_tables_ok]. Qed.
+(* cpc_confidence eps as modelled bit-exactly, every lg_k 4..26, HIP and ICON: 0 < eps, eps_ub < 1, increasing in kappa *)
+Theorem C06_cpc_eps_ok : forall merged lgk, 4 <= lgk <= 26 -> cpc_eps_row_ok merged lgk = true.
+Proof. exact cpc_eps_ok. Qed.
+Theorem C06_cpc_tables_ok :
+  forallb (fun v => (0 <? v) && (v <? 10000))
+          (cpc_ICON_LOW_SIDE_DATA ++ cpc_ICON_HIGH_SIDE_DATA ++ cpc_HIP_LOW_SIDE_DATA ++ cpc_HIP_HIGH_SIDE_DATA) = true.
+Proof. exact cpc_tables_ok. Qed.
+
+(* the published tables and constants are pinned by a digest over their binary64 bit patterns: extra decimal digits that
+   round to the same double are tolerated, a changed entry is not *)
+Theorem C06_tables_pinned : all_digests =
+  [1631660916400092824; 1336942135380431933; 1334016574715188835; 367845026185637098; 1621689400017352834;
+   2238524135473666140; 534981407937136847; 1630260656333221549; 260266529527383061; 193657861660872282;
+   1607972753685019361; 1883696197063475363; 1870653436784715027; 1435897921207620034; 2245007942206803064].
+Proof. exact tables_pinned. Qed.
+
+(* ---- non-vacuity: concrete evaluations of the extracted definitions ---- *)
+(* estimation mode, n = 50, theta = 1/16: lb < est < ub with the model's own inner approximations (table branch 6) *)
+Example C06_nonvacuous_binomial :
+  let theta := theta_frac 576460752303423488 in
+  match approx_lb 50 theta 2, approx_ub 50 theta 2 with
+  | Exact 6 il, Exact 6 iu =>
+      PrimFloat.ltb (sk_lb fops true 50 theta il) (sk_est fops 50 theta) && PrimFloat.ltb (sk_est fops 50 theta) (sk_ub fops true 50 theta iu)
+      && PrimFloat.ltb (fofZ 50) (sk_lb fops true 50 theta il) && PrimFloat.eqb (sk_est fops 50 theta) (fofZ 800)
+  | _, _ => false
+  end = true.
 Proof. vm_compute. reflexivity. Qed.
-Print Assumptions C06_tables_len.
+(* the clamp is active: an inner lower "bound" above the estimate is cut down to the estimate, one below n is raised to n *)
+Example C06_nonvacuous_clamp :
+  PrimFloat.eqb (bb_lb fops 10 c_half (fofZ 1000)) (fofZ 20) && PrimFloat.eqb (bb_lb fops 10 c_half (fofZ 3)) (fofZ 10)
+  && PrimFloat.eqb (bb_ub fops 10 c_half (fofZ 3)) (fofZ 20) = true.
+Proof. vm_compute. reflexivity. Qed.
+(* HLL / CPC in exact arithmetic with real table values: lg_k = 4, 2 std devs *)
+Example C06_nonvacuous_hll_cpc :
+  (hll_lb qops 100 (502865572 # 1000000000) 16 < 100 /\ 100 < hll_ub qops 100 (- (355574279 # 1000000000)))%Q /\
+  (cpc_lb qops 7 100 (2 * (6688 # 10000) / 4) < 100 /\ 100 < cpc_ub qops 7 100 (2 * (5247 # 10000) / 4))%Q /\
+  (cpc_lb qops 99 100 (2 * (6688 # 10000) / 4) == 99)%Q.
+Proof. vm_compute. repeat split; reflexivity. Qed.
+(* HIP on a 4-register array: three raising updates (two distinct slots) and one that does not raise *)
+Example C06_nonvacuous_hip :
+  let s := hip_run 4 [(0%nat, 1); (2%nat, 3); (0%nat, 1); (0%nat, 5)] in
+  count_nonzero (h_regs s) = 2 /\ (2 < h_hip s)%Q.
+Proof. vm_compute. split; reflexivity. Qed.
+(* the ICON polynomial branch on a concrete input, and the clamp raising a too small result *)
+Example C06_nonvacuous_icon :
+  match icon_estimate 10 3000 with Exact 3 v => PrimFloat.ltb (fofZ 3000) v | _ => false end
+  && PrimFloat.eqb (icon_clamp fops (fofZ 5) 9) (fofZ 9) = true.
+Proof. vm_compute. reflexivity. Qed.
+
+Print Assumptions C06_binomial_bounds_order.
+Print Assumptions C06_sketch_bounds_order.
+Print Assumptions C06_sketch_bounds_order_leb.
+Print Assumptions C06_exact_outside_estimation_mode.
+Print Assumptions C06_not_estimation_mode_cases.
+Print Assumptions C06_exact_when_empty.
+Print Assumptions C06_div_by_one_exact.
+Print Assumptions C06_binomial_theta_one.
+Print Assumptions C06_binomial_zero_samples.
+Print Assumptions C06_binomial_branch_structure.
+Print Assumptions C06_clamps_never_below_count.
+Print Assumptions C06_hll_array_order.
+Print Assumptions C06_hll_array_widen.
+Print Assumptions C06_coupon_list_order.
+Print Assumptions C06_coupon_list_widen.
+Print Assumptions C06_cpc_order.
+Print Assumptions C06_cpc_empty.
+Print Assumptions C06_cpc_widen.
+Print Assumptions C06_binomial_widen_through_clamps.
+Print Assumptions C06_binomial_lb_ge_retained.
+Print Assumptions C06_hip_dominates_nonzero_registers.
+Print Assumptions C06_hip_dominates_increment_count.
+Print Assumptions C06_table_lengths.
+Print Assumptions C06_table_indices_in_range.
+Print Assumptions C06_binomial_tables_ok.
+Print Assumptions C06_hll_tables_ok.
+Print Assumptions C06_hll_rel_err_ok.
+Print Assumptions C06_coupon_tables_ok.
+Print Assumptions C06_cpc_eps_ok.
+Print Assumptions C06_cpc_tables_ok.
+Print Assumptions C06_tables_pinned.
